@@ -16,7 +16,7 @@ EXPLANATION = ("Real Boxer.run generator (first pass, transition block, end), Bo
 FUNCTIONS = [('hio.base.hier.boxing', n) for n in ('Boxer.run', 'Boxer.exen', 'Boxer.predo', 'Boxer.exdo', 'Boxer.rexdo', 'Boxer.rendo', 'Boxer.endo', 'Boxer.end', 'Boxer.endial',
                                                    'Box._trace', 'Box.predo', 'Box.endo', 'Box.exdo', 'Box.rendo', 'Box.rexdo')]
 BOUNDS = {'quick': dict(steps=2, budget_s=200, audit_max=6), 'thorough': dict(steps=3, budget_s=2400, audit_max=20)}
-OUTSIDE = ['trees with more than 6 boxes / deeper than 4', 'more passes than the bound', 'several transition actions per box', 'the declarative builder (Boxer.make / bx / go verbs): boxes are wired directly',
+OUTSIDE = ['trees with more than 6 boxes / deeper than 4', 'more passes than the bound (2; 3 in the thorough tier on the chain, wide and two-root trees)', 'several transition actions per box', 'the declarative builder (Boxer.make / bx / go verbs): boxes are wired directly',
            'marks (enmarks/remarks), redo/afdo actions (not part of the statement)']
 STUBS = ['boxes constructed and wired directly (over/unders), actions are recording closures']
 ASSUMPTIONS = []
@@ -44,7 +44,7 @@ def partitions(tier):
             if tier == 'quick' and pile in seen:      # quick: one start box per distinct initial pile
                 continue
             seen.add(pile)
-            steps = b['steps'] if not (tier == 'thorough' and name == 'deepfork') else 2
+            steps = b['steps'] if not (tier == 'thorough' and name in ('deepfork', 'fork2', 'twins')) else 2      # three passes on the smaller trees only
             for lvl0 in range(len(pile)):      # which level of the initial pile fires in the first pass
                 ps.append(dict(name='%s-start-b%d-fires-b%d' % (name, start, pile[lvl0]), tree=name, start=start, steps=steps, form='script', level0=lvl0))
         for start in sorted({pile_of(parents, k)[-1] for k in range(n)}):
